@@ -359,7 +359,10 @@ private theorem visitM_bracket (T : Table) (v : Visitor σ) (hv : IdPreserving v
     skipped), whatever its state: the calls of a completed visit are `enter t` alone, or `enter t`, then a
     well-bracketed sequence (every `leave` closes the innermost open `enter` of the same node, a deleted or
     skipped node has an `enter` only), then `leave` of the returned node: parents are entered before and left
-    after their children. -/
+    after their children.
+    WEAKER THAN IT READS: `Forest.lone` admits an unmatched `enter` for ANY node; the statement that ties an unmatched `enter`
+    to a deletion / skip of that node (and says that a kept or replaced node IS left) is `balanced_strict`
+    (Props/C18_balanced.lean), of which this is the corollary `ForestV.forest`. -/
 theorem balanced (T : Table) (v : Visitor σ) (hv : IdPreserving v) (fuel : Nat) (t : Node) (s : σ) (o : Out σ)
     (h : visit T v fuel t s = .ok o) : Bracket t o ∧ Forest o.tr := by
   unfold visit at h
@@ -512,18 +515,22 @@ private theorem chainEnter_obs (vs : List (Visitor σ)) (hobs : ∀ v ∈ vs, Ob
     exact ih (fun w hw => hobs w (by simp [hw])) s1
 
 /-- **chained_order** — members that change nothing: `enter` runs the members' `enter` in order, `leave` runs
-    the members' `leave` in reverse order, on the same node. -/
+    the members' `leave` in reverse order, on the same node.
+    SUPERSEDED VARIANT: `chained vs` = `chained vs false` is the loop BEFORE fix C18-W8; the statement for the loop the code
+    has is `chained_order_current` (Props/C18_chain_current.lean). -/
 theorem chained_order (vs : List (Visitor σ)) (hobs : ∀ v ∈ vs, Observer v) (n : Node) (s : σ) :
     (chained vs).enter n s = (.keep n, vs.foldl (fun s v => (v.enter n s).2) s) ∧
     (chained vs).leave n s = vs.reverse.foldl (fun s v => v.leave n s) s := by
   refine ⟨chainEnter_obs vs hobs n s, ?_⟩
   simp [chained, chainLeave, List.foldl_reverse]
 
-/-- a chain of observers is an observer (so `identity_noop` and `balanced` apply to chains) -/
+/-- a chain of observers is an observer (so `identity_noop` and `balanced` apply to chains).
+    SUPERSEDED VARIANT (pre-W8 loop); current loop: `chained_observer_current`. -/
 theorem chained_observer (vs : List (Visitor σ)) (hobs : ∀ v ∈ vs, Observer v) : Observer (chained vs) := by
   intro n s; rw [(chained_order vs hobs n s).1]
 
-/-- `SkipNode` from the first member: no later member is entered, the chain skips -/
+/-- `SkipNode` from the first member: no later member is entered, the chain skips.
+    SUPERSEDED VARIANT (pre-W8 loop: this is the defect W8); current loop: `chained_skip_personal`. -/
 theorem chained_skip (v : Visitor σ) (vs : List (Visitor σ)) (n : Node) (s s1 : σ) (h : v.enter n s = (.skip n, s1)) :
     (chained (v :: vs)).enter n s = (.skip n, s1) := by
   simp [chained, chainEnter, h]
@@ -600,12 +607,14 @@ theorem nested_chain_flat_is_chain (t : VTree σ) : t.flat = chained t.flatten t
 def ChainFaithful : Prop :=
   ∀ (v : Visitor Unit) (n : Node), ((chained [v]).enter n ()).1 = (v.enter n ()).1
 
-/-- W6 — `ChainedVisitor.enter` returns the original node: a member's deletion is discarded … -/
+/-- W6 — `ChainedVisitor.enter` returns the original node: a member's deletion is discarded …
+    (stated for the pre-W8 loop; current loop: `chain_discards_delete_current`) -/
 theorem chain_discards_delete (v : Visitor σ) (n : Node) (s s1 : σ) (h : v.enter n s = (.delete, s1)) :
     (chained [v]).enter n s = (.keep n, s1) := by
   simp [chained, chainEnter, h]
 
-/-- … and so is a member's replacement (it is only handed to the later members) -/
+/-- … and so is a member's replacement (it is only handed to the later members)
+    (pre-W8 loop; current loop: `chain_discards_replace_current`) -/
 theorem chain_discards_replace (v w : Visitor σ) (n r : Node) (s s1 : σ) (h : v.enter n s = (.replace r, s1)) :
     (chained [v, w]).enter n s = (match w.enter r s1 with
       | (.skip _, s2) => (.skip n, s2)
@@ -615,7 +624,7 @@ theorem chain_discards_replace (v w : Visitor σ) (n r : Node) (s s1 : σ) (h : 
   rcases hw : w.enter r s1 with ⟨act, s2⟩
   cases act <;> simp [chainEnter]
 
-/-- refutation of `ChainFaithful` (known finding W6) -/
+/-- refutation of `ChainFaithful` (known finding W6) (pre-W8 loop; current loop: `chain_not_faithful_current`) -/
 theorem chain_not_faithful : ¬ ChainFaithful := by
   intro h
   have := h ⟨fun _ s => (.delete, s), fun _ s => s⟩ default
